@@ -5,6 +5,8 @@ import ast
 
 from ..core import Run, AnalysisError, dotted, norm, PKG
 from ..dim import World
+from ..gate import GateReader, Dim, Obj
+from ..pyreader import Raised
 from ..flow import Fn, kw, node_calls, node_of, conditions_for, stmt_of, numeric_consts
 from .c03 import _i3_idgen
 
@@ -197,70 +199,82 @@ def _n2(run: Run, w: World, used_prefixes: list) -> None:
     _i3_idgen(run)  # counter ownership / monotonicity (reported under I3 ids; shared with C03)
 
 
+class CloneReader(GateReader):
+    """the clone helpers evaluated on a source object; constructions of Symbol / Function / IndexedSymbol are recorded"""
+
+    def __init__(self, module, where):
+        super().__init__(module, where)
+        self.built: list = []
+
+    def hook_call(self, n, env, fns):
+        name = (dotted(n.func) or "").split(".")[-1]
+        if name in ("Symbol", "Function", "IndexedSymbol") and name not in self.functions:
+            args = [self.ev(a, env, fns) for a in n.args]
+            kwargs = {k.arg: self.ev(k.value, env, fns) for k in n.keywords if k.arg}
+            for k in n.keywords:
+                if k.arg is None:
+                    extra = self.ev(k.value, env, fns)
+                    if not isinstance(extra, dict):
+                        self.fail(n, "** of something that is not a dict")
+                    kwargs.update(extra)
+            obj = Obj(name, {"args": args, "kwargs": kwargs}, "clone")
+            self.built.append(obj)
+            return obj
+        return super().hook_call(n, env, fns)
+
+
 def _n3(run: Run, w: World) -> None:
-    run.rule("N3", "clone_as_symbol/function/indexed forward source.dimension, default display names and assumptions to the source's, subscript both names")
-    ctor = {"clone_as_symbol": ("Symbol", 1), "clone_as_function": ("Function", 2), "clone_as_indexed": ("IndexedSymbol", 2)}
-    for name, (cls, dim_idx) in ctor.items():
-        f = Fn(w, SYMS, name)
-        rets = f.cfg.returns()
-        run.require(bool(rets), f"{name} has no return")
-        for r in rets:
-            v = r.ast.value
-            sl = f.slice(r, v)
-            calls = [c for c in sl.call_nodes if f.callee(node_of(f.cfg, c) or r, c) == f"{SYMS}.{cls}"]
-            run.ob("N3", f"{name}:constructs-{cls}")
-            if len(calls) != 1:
-                run.violate("N3", f"{f.qual}:constructor", f.mod, r.ast, f"{name} does not return a {cls}(...)")
-                continue
-            c = calls[0]
-            cn = node_of(f.cfg, c) or r
-            # dimension
-            run.ob("N3", f"{name}:dimension")
-            d = c.args[dim_idx] if len(c.args) > dim_idx else kw(c, "dimension")
-            if d is None or dotted(d) != "source.dimension":
-                run.violate("N3", f"{f.qual}:dimension", f.mod, c, f"{name} passes `{norm(d) if d is not None else 'nothing'}` as dimension instead of source.dimension")
-            # display names
-            for which, argnode, attr, param in (("code name", c.args[0] if c.args else kw(c, "display_symbol"), "source.display_name", "display_symbol"),
-                                                ("LaTeX name", kw(c, "display_latex"), "source.display_latex", "display_latex")):
-                run.ob("N3", f"{name}:{which}")
-                if argnode is None:
-                    run.violate("N3", f"{f.qual}:{which}", f.mod, c, f"{name} does not pass a {which} to {cls}")
-                    continue
-                s = f.slice(cn, argnode)
-                if attr not in s.attrs or param not in s.params:
-                    run.violate("N3", f"{f.qual}:{which}", f.mod, c,
-                                f"the {which} given to {cls} does not default to {attr} (depends on {sorted(s.params | s.attrs)})")
-                if "subscript" in f.params:
-                    helper = [cc for cc in s.call_nodes if f.callee(node_of(f.cfg, cc) or cn, cc) == SYMS + "._process_subscript_and_names"]
-                    if not helper or "subscript" not in s.params:
-                        run.violate("N3", f"{f.qual}:{which}:subscript", f.mod, c, f"the requested subscript does not reach the {which}")
-            # assumptions
-            run.ob("N3", f"{name}:assumptions")
-            star = [k.value for k in c.keywords if k.arg is None]
-            if not star:
-                run.violate("N3", f"{f.qual}:assumptions", f.mod, c, f"{name} does not forward **assumptions to {cls}")
-            else:
-                s = f.slice(cn, star[0])
-                if "source.assumptions0" not in s.attrs or "assumptions" not in s.params:
-                    run.violate("N3", f"{f.qual}:assumptions", f.mod, c,
-                                f"{name} does not default the assumptions to source.assumptions0 when none are passed (its siblings do): "
-                                f"a clone of a positive/real symbol loses that knowledge")
-        run.sample({"clone": f.qual})
-    h = Fn(w, SYMS, "_process_subscript_and_names")
-    for r in h.cfg.returns():
-        conds = conditions_for(h.fn, r.ast) or []
-        v = r.ast.value
-        if not (isinstance(v, ast.Tuple) and len(v.elts) == 2):
-            raise AnalysisError("C09/N3: _process_subscript_and_names does not return a pair")
-        s0, s1 = h.slice(r, v.elts[0]), h.slice(r, v.elts[1])
-        run.ob("N3", f"subscript-helper:{norm(r.ast, 40)}")
-        if "code_name" not in s0.params or "latex_name" not in s1.params:
-            run.violate("N3", f"{h.qual}:names:{norm(r.ast, 50)}", h.mod, r.ast, "the (code, latex) pair returned does not derive from (code_name, latex_name) in that order")
-        escaping = any(isinstance(t, ast.UnaryOp) and isinstance(t.op, ast.Not) and dotted(t.operand) == "subscript" and p is True for t, p in conds if not isinstance(t, str))
-        if not escaping and ("subscript" in s0.params) != ("subscript" in s1.params):
-            run.violate("N3", f"{h.qual}:one-sided:{norm(r.ast, 50)}", h.mod, r.ast, "the subscript is appended to only one of the two names")
-        if not escaping and "subscript" not in s0.params and "subscript" not in s1.params:
-            run.violate("N3", f"{h.qual}:dropped:{norm(r.ast, 50)}", h.mod, r.ast, "a requested subscript is dropped")
+    """the three clone helpers are EVALUATED on a source symbol: what they hand to the constructor is compared with the property (declared dimension,
+    names defaulting to the source's, subscript on both names, assumptions defaulting to the source's)"""
+    run.rule("N3", "clone_as_symbol/function/indexed construct their class with source.dimension, display names and assumptions defaulting to the source's, a requested subscript on both names")
+    m = run.src.need(SYMS)
+    D = Dim.of(mass=1, length=2, time=-2)
+    spec = {"clone_as_symbol": ("Symbol", 1, "dimension", True, []), "clone_as_function": ("Function", 2, "dimension", True, ["ARGS"]), "clone_as_indexed": ("IndexedSymbol", 2, "dimension", False, ["IDX"])}
+    for name, (cls, dim_idx, dim_kw, has_sub, extra) in spec.items():
+        fdef = next((x for x in m.tree.body if isinstance(x, ast.FunctionDef) and x.name == name), None)
+        run.require(fdef is not None, f"{name} not found")
+        takes_sub = any(a.arg == "subscript" for a in fdef.args.kwonlyargs + fdef.args.args)
+        variants = [("defaults", {}), ("explicit names", {"display_symbol": "CODE", "display_latex": "LATEX"}), ("own assumptions", {"positive": True})]
+        if takes_sub:
+            variants += [("subscript", {"subscript": "SUB"}), ("subscript and names", {"subscript": "SUB", "display_symbol": "CODE", "display_latex": "LATEX"})]
+        elif has_sub:
+            run.violate("N3", f"{SYMS}:{name}:subscript-parameter", m, fdef, f"{name} no longer takes a subscript")
+        for label, kwargs in variants:
+            run.ob("N3", f"{name}:{label}")
+            source = Obj("Symbol", {"display_name": "SRC", "display_latex": "SRCTEX", "dimension": D, "assumptions0": {"real": True, "commutative": True}}, "source")
+            R = CloneReader(m.tree, "symbols.py")
+            try:
+                got = R.call(name, [source] + list(extra), dict(kwargs))
+                problem = None
+            except Raised as r:
+                got, problem = None, f"raises {r.exc}"
+            if not problem:
+                if not (isinstance(got, Obj) and got.cls == cls and got in R.built):
+                    problem = f"does not return a {cls}(...) it constructs (got {got!r})"
+            if not problem:
+                a_, k_ = got.attrs["args"], got.attrs["kwargs"]
+                dim = a_[dim_idx] if len(a_) > dim_idx else k_.get(dim_kw)
+                code = a_[0] if a_ else k_.get("display_symbol")
+                latex = k_.get("display_latex")
+                want_code = kwargs.get("display_symbol", "SRC")
+                want_latex = kwargs.get("display_latex", "SRCTEX")
+                own = {k: v for k, v in kwargs.items() if k not in ("display_symbol", "display_latex", "subscript")}
+                want_assumptions = own or {"real": True, "commutative": True}
+                got_assumptions = {k: v for k, v in k_.items() if k not in ("display_latex", "display_symbol", dim_kw)}
+                if not (isinstance(dim, Dim) and dim == D):
+                    problem = f"passes {dim!r} as dimension instead of source.dimension"
+                elif not isinstance(code, str) or not isinstance(latex, str):
+                    problem = f"does not pass both display names to {cls} (code {code!r}, LaTeX {latex!r})"
+                elif "subscript" in kwargs and not (code.startswith(want_code) and "SUB" in code and latex.startswith(want_latex) and "SUB" in latex):
+                    problem = f"with subscript 'SUB' names the clone ({code!r}, {latex!r}): the subscript has to reach both the code name and the LaTeX name"
+                elif "subscript" not in kwargs and (code != want_code or latex != want_latex):
+                    problem = f"names the clone ({code!r}, {latex!r}); expected ({want_code!r}, {want_latex!r}) - explicit names win, otherwise the source's"
+                elif got_assumptions != want_assumptions:
+                    problem = (f"forwards the assumptions {got_assumptions!r}; expected {want_assumptions!r} "
+                               f"({'the caller\'s' if own else 'source.assumptions0 when none are passed: a clone of a real/positive symbol must not lose that knowledge'})")
+            if problem:
+                run.violate("N3", f"{SYMS}:{name}:{label}", m, fdef, f"{name} ({label}) {problem}")
+        run.sample({"clone": f"{SYMS}:{name}"})
 
 
 def _name_uses(fn: ast.AST) -> list[ast.AST]:
